@@ -205,6 +205,62 @@ def join_flags(ctx) -> None:
     ctx.check('condition if condition is not None else' in text, 'C06.join-flags', fn, 'on-clause is the condition when present (None-test)', fn.node, key='onclause')
 
 
+QUERY_CLAUSES = {
+    'where': [('where is not None', True)],
+    'group_by': [('groupby', True)],
+    'having': [('having is not None', True)],
+    'order_by': [('orderby', True)],
+    'limit': [('rows', True)],
+    'offset': [('rows', True), ('rows.offset', True)],
+}
+
+
+def query_clauses(ctx) -> None:
+    """Every clause of the generated SELECT is applied exactly when its own argument is present (a HAVING without GROUP BY
+    - a global aggregate - is legal and must not be dropped; LIMIT needs no ORDER BY ...)."""
+    prog = ctx.prog
+    fn = prog.func(f'{ALCHEMY}:Parser.generate_query')
+    seen = set()
+    for c in core.calls_in(fn.node):
+        if isinstance(c.func, ast.Attribute) and c.func.attr in QUERY_CLAUSES and core.src(c.func.value) == 'query':
+            name = c.func.attr
+            seen.add(name)
+            gs = cfg.cguards(c, fn.node)
+            ctx.check(sorted(gs) == sorted(QUERY_CLAUSES[name]), 'C06.query-clauses', fn, f'.{name}() is applied exactly when its own argument is present (guards {gs}, expected {QUERY_CLAUSES[name]})', c, key=f'clause:{name}')
+    ctx.check(seen == set(QUERY_CLAUSES), 'C06.query-clauses', fn, f'all clauses are generated ({sorted(seen)})', fn.node, key='clauses:all')
+    sel = [c for c in core.calls_in(fn.node) if core.src(c.func) == 'sql.select']
+    ctx.check(len(sel) == 1 and core.src(sel[0].args[0]) == '*features' and '.select_from(source)' in core.src(fn.node), 'C06.query-clauses', fn, 'SELECT <features> FROM <source>', fn.node, key='clauses:select')
+    vq = prog.func(f'{PARSER}:Visitor.visit_query')
+    call = next((c for c in core.calls_in(vq.node) if core.call_tail(c) == 'generate_query'), None)
+    okq = call is not None and [core.src(a) for a in call.args[1:]] == ['features', 'where', 'groupby', 'having', 'orderby', 'source.rows']
+    ctx.check(okq, 'C06.query-clauses', vq, 'visit_query hands (features, where, groupby, having, orderby, rows) over in declaration order', call or vq.node, key='visit_query:args')
+    defs = {core.src(s.targets[0]): core.src(s.value) for s in core.walk_local(vq.node) if isinstance(s, ast.Assign) and isinstance(s.targets[0], ast.Name)}
+    want = {'where': 'source.prefilter', 'having': 'source.postfilter', 'groupby': 'source.grouping', 'orderby': 'source.ordering', 'features': 'source.features'}
+    for var, member in want.items():
+        ctx.check(var in defs and member in defs[var], 'C06.query-clauses', vq, f'`{var}` is generated from {member}', vq.node, key=f'visit_query:{var}')
+
+
+def defaults_precedence(ctx) -> None:
+    """User supplied reader/feed options override class-level defaults: in ``DEFAULTS | kwargs`` (and {**a, **b}) the
+    right operand wins, so the class constant must be the left one."""
+    prog = ctx.prog
+    n = 0
+    for fn in prog.functions([m for m in prog.modules if m.startswith(('forml.provider.feed', 'forml.provider.runner', 'forml.io._input'))]):
+        params = set(fn.param_names)
+        for node in core.walk_local(fn.node):
+            if isinstance(node, ast.BinOp) and isinstance(node.op, ast.BitOr):
+                l, r = node.left, node.right
+                def is_default(x):
+                    d = core.dotted(x) or ''
+                    return d.split('.')[0] in ('self', 'cls') and d.split('.')[-1].isupper()
+                def is_user(x):
+                    return isinstance(x, ast.Name) and x.id in params
+                if (is_default(l) and is_user(r)) or (is_default(r) and is_user(l)):
+                    n += 1
+                    ctx.check(is_default(l), 'C06.defaults', fn, f'`{core.src(node)}`: caller supplied options take precedence over the class defaults (right operand of | wins)', node)
+    ctx.floor('C06.defaults', n, 1)
+
+
 def _is_pop(call: ast.Call) -> bool:
     return isinstance(call.func, ast.Attribute) and call.func.attr == 'pop' and (core.dotted(call.func) or '').endswith('symbols.pop')
 
@@ -377,6 +433,8 @@ def run(ctx) -> None:
     tables(ctx)
     shared.operator_chain(ctx, 'C06.chain')
     join_flags(ctx)
+    query_clauses(ctx)
+    defaults_precedence(ctx)
     automaton(ctx)
     shared_state(ctx)
     mods = [m for m in prog.modules if m.startswith(('forml.io.dsl.parser', 'forml.provider.feed', 'forml.io._input'))]
